@@ -83,6 +83,21 @@ impl Debt {
             .is_ok()
     }
 
+    /// The same as [`pay`][Debt::pay], for the writer that walks over the slots after it has
+    /// replaced the pointer.
+    ///
+    /// Either the reader's confirming (SeqCst) load sees the new pointer, or we must see the debt
+    /// the reader has put into the slot (with SeqCst) before that load. This takes the SeqCst
+    /// total order and the *check* here has to be a part of it. A failed compare-exchange is only
+    /// a load with the failure ordering and a Relaxed one is not ordered by our SeqCst swap of the
+    /// pointer ‒ it would be allowed to return an outdated „no debt here“.
+    #[inline]
+    fn pay_after_swap<T: RefCnt>(&self, ptr: *const T::Base) -> bool {
+        self.0
+            .compare_exchange(ptr as usize, Self::NONE, SeqCst, SeqCst)
+            .is_ok()
+    }
+
     /// Pays all the debts on the given pointer and the storage.
     pub(crate) fn pay_all<T, R>(ptr: *const T::Base, storage_addr: usize, replacement: R)
     where
@@ -104,10 +119,11 @@ impl Debt {
                     .fast_slots()
                     .chain(core::iter::once(node.helping_slot()));
                 for slot in all_slots {
-                    // Note: Release is enough even here. That makes sure the increment is
-                    // visible to whoever might acquire on this slot and can't leak below this.
-                    // And we are the ones doing decrements anyway.
-                    if slot.pay::<T>(ptr) {
+                    // Note: Release would be enough for the increment ‒ that makes sure it is
+                    // visible to whoever might acquire on this slot and can't leak below this
+                    // (and we are the ones doing decrements anyway). But the check itself must
+                    // be ordered after our swap of the pointer, see pay_after_swap.
+                    if slot.pay_after_swap::<T>(ptr) {
                         // Pre-pay one more, for another future slot
                         T::inc(&val);
                     }
